@@ -30,3 +30,25 @@ Theorem C18_no_report_whole : forall input imports out,
   \/ exists out', read_imports false input = ROk imports out' ENUL.
 Proof. exact no_report_whole. Qed.
 Print Assumptions C18_no_report_whole.
+From GI Require Import Imports.ReadGrammar Imports.ReadComplete.
+
+(* completeness on the grammar G of import sections (ReadGrammar.v): optional BOM; trivia =
+   blanks, newlines, semicolons, // and /* */ comments; `package` name; any number of import
+   declarations, single or grouped, specs plain / named / . / _ (an identifier), raw or
+   interpreted path literals with escapes; followed by the end of the input or by a byte
+   that is neither trivia nor 'i'.  The imports are the path literals in order, the returned
+   bytes are the rendering of the section without the BOM, the error is nil. *)
+Theorem C18_read_imports_complete : forall report g rest,
+  wf_section g rest = true ->
+  read_imports report (render g ++ rest) = ROk (paths g) (render_body g) ENone.
+Proof. exact read_imports_complete. Qed.
+Print Assumptions C18_read_imports_complete.
+
+(* the returned prefix is itself a member of G (the same section without its BOM, followed by
+   nothing) and reading it again yields the same imports and the same bytes *)
+Theorem C18_prefix_reparses : forall report g rest,
+  wf_section g rest = true ->
+  render (without_bom g) ++ [] = render_body g
+  /\ read_imports report (render_body g) = ROk (paths g) (render_body g) ENone.
+Proof. exact prefix_reparses. Qed.
+Print Assumptions C18_prefix_reparses.
